@@ -17,7 +17,7 @@ def rules_for(prop):
     table = {
         "C01": [ag.rule_ag1, ag.rule_ag2, ag.rule_ag3_small, ag.rule_ag3_map_filter, ag.rule_ag3_do_action, scan.rule_sc1, scan.rule_sd2, tm.rule_tm4, st.rule_st5, seq.rule_fw2],
         "C02": st.RULES + [ms.rule_ms, tm.rule_tm5, scan.rule_sd1],
-        "C03": mx.RULES,
+        "C03": mx.RULES + [st.rule_st8],
         "C04": [named(grp.rule_eq1, files=("rxsci/operators/group_by.py", "rxsci/state/memory_store.py", "rxsci/state/store.py",
                                            "rxsci/operators/multiplex.py"), min_instances=1), named(grp.rule_fw1, heads=("group_by",)), grp.rule_fl1,
                 named(lv.rule_lv, only=("group_by_mux._group_by.on_subscribe",)), ms.rule_ms],
@@ -33,14 +33,14 @@ def rules_for(prop):
         "C12": [num.rule_nm1, ag.rule_ag4, named(scan.rule_pu1, files=("rxsci/math/sum.py", "rxsci/math/mean.py", "rxsci/math/min.py", "rxsci/math/max.py",
                                                           "rxsci/math/variance.py", "rxsci/math/stddev.py", "rxsci/math/formal/variance.py",
                                                           "rxsci/math/formal/stddev.py", "rxsci/math/formal/__init__.py"))],
-        "C13": er.RULES + [mx.rule_wc2],
+        "C13": er.RULES + [mx.rule_wc2, st.rule_st8],
         "C14": ms.RULES,
         "C15": [io.rule_framing],
         "C16": [io.rule_compression],
         "C17": [io.rule_codec],
-        "C18": [cont.rule_csv_tables, cont.rule_csv_merge, cont.rule_dp7],
-        "C19": [cont.rule_ag7, io.rule_framing, io.rule_codec, io.rule_compression],
-        "C20": [cont.rule_pu2, seq.rule_dp6],
+        "C18": [cont.rule_csv_tables, cont.rule_csv_merge, cont.rule_csv_classify, cont.rule_dp7, io.rule_fr3, io.rule_fh1_file],
+        "C19": [cont.rule_ag7, io.rule_framing, io.rule_codec, io.rule_compression, io.rule_fr3, io.rule_fh1_file],
+        "C20": [cont.rule_pu2, seq.rule_dp6, io.rule_fh1_parquet],
         "C06": [named(grp.rule_eq1, files=("rxsci/data/split.py",), min_instances=1), named(grp.rule_fw1, heads=("split",)), grp.rule_dp4,
                 named(lv.rule_lv, only=("split_mux._split.on_subscribe",))],
         "C07": [grp.rule_time_split, named(grp.rule_fw1, heads=("time_split",)),
@@ -63,7 +63,7 @@ EXPLANATION = {
     "C02": _COMMON + "Decided clauses: ST-1 mux handlers write no closure data outside the Probe branch; ST-2 every state id is add_key'd "
            "on every creation path; ST-3 indices used during a lifetime are included in those initialised at creation (affine index sets "
            "key[0], key[0]*D+[0,D)); ST-4 no use after del_key; ST-5 tee_map join table reset covers the slots written; ST-6 injective child "
-           "indices; ST-7 state defaults handed to the store are immutable (a mutable default would be shared by every key); WC-1 frame condition on the store (by reachability from the mux handlers); MS-1..5 add_key/del_key/set/get of the memory store (re-initialisation at creation); TM-5 join table growth; SD-1 the scan seed reaches per-key state only through seed() / deepcopy(seed). Not decided: values; user closures.",
+           "indices; ST-8 every store call passes (state id, key): the state id never comes from the event, the key does; ST-7 state defaults handed to the store are immutable (a mutable default would be shared by every key); WC-1 frame condition on the store (by reachability from the mux handlers); MS-1..5 add_key/del_key/set/get of the memory store (re-initialisation at creation); TM-5 join table growth; SD-1 the scan seed reaches per-key state only through seed() / deepcopy(seed). Not decided: values; user closures.",
     "C03": _COMMON + "Per-operator protocol preservation for the 32 MuxObservable construction sites: MX-1..4 per-kind lifecycle "
            "obligations, LV typestate of child keys in the five grouping heads (ghost state P = liveness downstream, S = liveness recorded in "
            "the store, invariant S = P while the parent is live), MX-5 sandwich and demux, MX-6 root, MX-7 tee_map de-duplication, MX-8 "
@@ -89,7 +89,7 @@ EXPLANATION = {
            "accumulators do not mutate items or free state and mappers downstream of a scan do not mutate the live accumulator.",
     "C10": _COMMON + "Decided clauses: FW-2 per-path emission multiplicity and bookkeeping of first, take (countdown > 0, minus exactly 1), "
            "last, pad_start/pad_end (one padding item per element of range(size)), start_with, lag(1)/lag(n) and the dispatch between them, distinct; OPT-1 an explicit falsy padding value pads like any other explicit value (only 'is None' means not given); DP-6 batch flag is len(batch) == batch_size on every path, a new list holding only the item is started exactly after a complete batch, and the "
-           "terminator flags the pending list exactly when it was not already emitted and is not empty; DP-8 seed slots compared by value are private markers; SO-1 sort delegates to one stable sorted(items, key=key, reverse=reverse); EQ-1.",
+           "terminator flags the pending list exactly when it was not already emitted and is not empty; DP-8 seed slots compared by value are private markers; SO-1 sort delegates to one stable sorted(items, key=key, reverse=reverse); SO-2 to_deque (the last stage of sort) queues at the right end, emits nothing before completion, then empties the queue from the left end and completes once; EQ-1.",
     "C11": _COMMON + "Decided clauses: PR-1 no scheduler/timer/thread call outside the three sources and every emission is made inside a "
            "handler; PR-2 the set of completion-time emitters is exactly scan(reduce/terminator), last, pad_end (plus named plain codecs), and a streaming codec emits what it can decode / encode while the chunk is handled; "
            "PR-3 windows/segments are completed while their closing item is handled, and an item that restarts the time_split window "
@@ -105,10 +105,10 @@ EXPLANATION = {
            "per kind incl. dead-letter completion order; ER-3 both demultiplexers turn a mux error into on_error; WC-2.",
     "C14": _COMMON + "Induction over operation sequences: every MemoryStore method preserves the representation invariant and the frame: "
            "MS-1 lock-step growth up to key[0]; MS-2 writes only at key[0]; MS-3 marker table; MS-4 allocator freshness; MS-5 typecode table; "
-           "MS-6 the 18 forwarders of StoreManager/Store pass the same arguments in order. Not decided: value read-back beyond typecodes.",
+           "MS-6 the 18 forwarders of StoreManager/Store pass the same arguments in order; MS-7 is_set / is_cleared read the marker of slot key[0] and iterate yields (key, value, is-set) for exactly the slots not CLEARED. Not decided: value read-back beyond typecodes.",
     "C15": _COMMON + "Decided clauses (narrow): same delimiter written and split; carry-over prepended and re-assigned on every path; "
            "remainder flushed at completion iff non-empty; length-prefix defaults agree and reach to_bytes/from_bytes; CMP-2 both "
-           "availability comparisons are inclusive in linear normal form; carry-over = unconsumed bytes. Not decided: all chunkings.",
+           "availability comparisons are inclusive in linear normal form, for the first and for the following frames of a chunk (two loop iterations); carry-over = unconsumed bytes. Not decided: all chunkings.",
     "C16": _COMMON + "Decided clauses: OB-1 every chunk goes through the one codec object and its output is emitted; OB-2 flush output "
            "before on_completed; OB-3 completion without eof ends in on_error only, one terminal per path; AG-5 gzip wbits equal (31); AG-6 "
            "z and zstd skeletons equal. zlib/zstandard streaming semantics are trusted.",
@@ -116,13 +116,13 @@ EXPLANATION = {
            "it; final=True flush emitted before completion; defaults incremental=True; json.py does not override them.",
     "C18": _COMMON + "Decided clauses (narrow): the unescape pairs of parse_line are the inverses of dump's escape pairs; defaults of "
            "separator/escapechar agree and reach join/split; type table (None <-> '', bool <-> 'True'); DP-7 the float parser is not a "
-           "separable sum f(int part) + g(fraction part); CS-2 the quoted-field merger consumes every split piece exactly once. Not decided: fields ending with the escape character (known to fail at run time).",
+           "separable sum f(int part) + g(fraction part); CS-2 the quoted-field merger consumes every split piece exactly once; CS-3 its decision table over 11 abstract pieces x {field open, closed} is the inverse of the writer's quoting and no path indexes beyond a piece; FR-3 file.read emits every non-empty chunk once, in order, and stops at the first empty chunk; FH-1 file.write closes the handle it opened itself (never a caller's) before forwarding the terminal event. Not decided: fields ending with the escape character (known to fail at run time).",
     "C19": _COMMON + "Decided clause: AG-7 for each compression setting the stage list of load_from_file(lines=True) is the reversed "
            "stage list of dump_to_file through the inverse table; compression tables, modes, encoding and newline defaults agree; plus the stage rules of C15 (line framing), C16 (codecs) and C17 (text codec) "
-           "for the stages the pipeline is composed of.",
+           "for the stages the pipeline is composed of, and FR-3 / FH-1 for the file reader and writer.",
     "C20": _COMMON + "Decided clauses: PU-2 the record builder carries no mutable free state into its result and transposes every row into every column in field order; stage order batch -> "
            "to_record -> writer with batch_size forwarded; writer closed before completion; loader emits every row of every batch before "
-           "on_completed; DP-6 (batch). pyarrow is trusted.",
+           "on_completed and leaves the batch loop early only when the subscriber disposed; FH-1 the parquet writer is closed (footer) before the file it opened, and both before the terminal event; a caller's file object is not closed; DP-6 (batch). pyarrow is trusted.",
 }
 
 DEFAULT_LEVEL_TEXT = ("Static analysis: the named structural clauses (necessary conditions of the property) are decided on every "
